@@ -41,7 +41,7 @@ def discard(why=""):
     """Drop the current path (an assumption that can only be stated mid-run)."""
     with nt():
         S["ignored"] += 1
-    if NoTracing is not None and is_tracing():
+    if NoTracing is not None and (is_tracing() or in_crosshair()):
         raise IgnoreAttempt(why)
     raise _ReplayDiscard(why)
 
@@ -221,3 +221,10 @@ class FaultPlan:
             self.fired.append((i, name) + tuple(args))
             return ("fail", self.err2)
         return None
+
+
+def note(msg):
+    """record a remark in the per-process stats; the runner treats notes starting with 'FATAL:' as a harness error"""
+    with nt():
+        if len(S["notes"]) < 20 or msg not in S["notes"]:
+            S["notes"].append(msg)
